@@ -173,7 +173,10 @@ def gen_spec(rng):
         if rng.random() < 0.5:
             vals = np.sort(vals)
         kind = rng.random()
-        if kind < 0.4:
+        if kind < 0.15:
+            # closely spaced / tiny magnitudes (noise variances, tolerances)
+            s.unpacked[nm] = vals.astype(float) * float(rng.choice([1e-9, 1e-12, 1e-15]))
+        elif kind < 0.4:
             s.unpacked[nm] = vals.astype(float) / 2.0
         elif kind < 0.7:
             s.unpacked[nm] = [int(v) for v in vals]
